@@ -1066,6 +1066,10 @@ class Interp:
             else:
                 name = (arg_names[i - 1] if arg_names else None) or fn.locals[i]['name'] or ('arg%d' % i)
                 cells[i].v = self.sym_value(st, T.var(name), ty)
+                if ty.startswith('impl ') and 'Iterator<' in ty and 'IntoIterator' not in ty and isinstance(cells[i].v, Sym):
+                    # an opaque iterator handed in: the stream of its items from the start (it may be stepped by hand)
+                    from . import stdsum
+                    cells[i].v = stdsum.as_iter(self, st, cells[i].v)
         return st
 
     def run(self, st, stop=None):
